@@ -132,11 +132,12 @@ CONTS = ["series", "frame", "array1", "array2", "list"]
 
 
 def rand_sdesc(rng, good=0.6, n_lo=8, n_hi=30):
+    ik = rng.choice(["int", "range"])
     if rng.random() < good:
-        return {"cont": "series", "len": rng.randint(n_lo, n_hi), "sorted": True}
+        return {"cont": "series", "len": rng.randint(n_lo, n_hi), "sorted": True, "idx": ik}
     c = rng.choice(CONTS)
     ln = rng.choice([0, 0, rng.randint(n_lo, n_hi)]) if rng.random() < 0.3 else rng.randint(n_lo, n_hi)
-    return {"cont": c, "len": ln, "sorted": rng.random() < 0.6 or ln < 2}
+    return {"cont": c, "len": ln, "sorted": rng.random() < 0.6 or ln < 2, "idx": ik}
 
 
 SETTING_ENTRIES = {
@@ -153,6 +154,7 @@ MATRIX_ENTRIES = ["poly.fit", "ens.fit", "pipe.fit", "reduce.fit", "naive.update
                   "evaluate", "gscv.fit", "expanding.split", "single.split", "cutoff.split",
                   "tts_fh", "theta.fit", "update_predict"]
 MATRIX_CLASSES = ["valid", "y_unsorted", "y_empty", "y_frame", "y_array", "y_list", "X_diff_index",
+                  "X_unsorted", "X_array", "X_shorter",
                   "fh_dup", "fh_empty", "fh_frac", "fh_str", "fh_float"]
 # (entry, class) pairs that do not apply (the entry does not take that argument) or are outside
 # the property for that entry (see DESIGN.md C20): skipped, not guessed
@@ -163,6 +165,14 @@ MATRIX_SKIP = {
     ("expanding.split", "X_diff_index"), ("single.split", "X_diff_index"),
     ("cutoff.split", "X_diff_index"), ("naive.predict", "X_diff_index"),
     ("gscv.fit", "X_diff_index"), ("update_predict", "X_diff_index"),
+    ("expanding.split", "X_unsorted"), ("single.split", "X_unsorted"), ("cutoff.split", "X_unsorted"),
+    ("naive.predict", "X_unsorted"), ("gscv.fit", "X_unsorted"), ("update_predict", "X_unsorted"),
+    ("expanding.split", "X_array"), ("single.split", "X_array"), ("cutoff.split", "X_array"),
+    ("naive.predict", "X_array"), ("gscv.fit", "X_array"), ("update_predict", "X_array"),
+    ("expanding.split", "X_shorter"), ("single.split", "X_shorter"), ("cutoff.split", "X_shorter"),
+    ("naive.predict", "X_shorter"), ("gscv.fit", "X_shorter"), ("update_predict", "X_shorter"),
+    ("tts_fh", "X_array"),             # numpy X has no index to compare: AttributeError family is
+                                       # sklearn/pandas territory for this thin wrapper
     ("expanding.split", "y_frame"), ("single.split", "y_frame"), ("cutoff.split", "y_frame"),
     ("naive.predict", "y_unsorted"), ("naive.predict", "y_empty"), ("naive.predict", "y_frame"),
     ("naive.predict", "y_array"), ("naive.predict", "y_list"),
@@ -233,7 +243,8 @@ def gen_cases(rng, tier):
         wl = None if rng.random() < 0.35 else rng.randint(max(2, sp), n)
         c = {"kind": "naive_fit", "strategy": strat, "sp": ["int", sp],
              "wl": ["none"] if wl is None else ["int", wl],
-             "y": {"cont": "series", "len": n, "sorted": True}, "X": None,
+             "y": {"cont": "series", "len": n, "sorted": True,
+                   "idx": rng.choice(["int", "range"])}, "X": None,
              "fh": _valid_fh(rng) if rng.random() < 0.8 else ["missing"]}
         if rng.random() < 0.3:
             c["X"] = {"desc": {"cont": "frame", "len": n, "sorted": True}, "same": True}
@@ -247,7 +258,7 @@ def gen_cases(rng, tier):
             c["wl"] = list(rng.choice([b for b in BAD_SETTINGS if b != ["none"]]))
         elif fault == "y_cont":
             c["y"] = {"cont": rng.choice(["frame", "array1", "array2", "list"]), "len": n,
-                      "sorted": True}
+                      "sorted": True, "idx": rng.choice(["int", "range"])}
             c["X"] = None
         elif fault == "y_unsorted":
             c["y"]["sorted"] = False
@@ -361,8 +372,10 @@ def gen_cases(rng, tier):
             if (e, c) in MATRIX_SKIP:
                 continue
             for _ in range(1 if tier == "quick" else 4):
-                cases.append({"kind": "matrix", "entry": e, "cls": c, "n": rng.randint(14, 30),
-                              "start": rng.choice([0, 0, 3, 50])})
+                for ik in (("int", "range") if c in ("y_unsorted", "valid") else
+                           (rng.choice(["int", "range"]),)):
+                    cases.append({"kind": "matrix", "entry": e, "cls": c, "n": rng.randint(14, 30),
+                                  "start": rng.choice([0, 0, 3, 50]), "idx": ik})
     return cases
 
 
@@ -380,11 +393,17 @@ def _mk_y(d, start=0):
     idx = np.arange(start, start + n)
     if not d["sorted"] and n >= 2:
         idx = idx[::-1].copy()
+    index = pd.Index(idx)
+    if d.get("idx") == "range":
+        # the default index type; reversed it is a RangeIndex with a negative step
+        index = pd.RangeIndex(start, start + n)
+        if not d["sorted"] and n >= 2:
+            index = index[::-1]
     c = d["cont"]
     if c == "series":
-        return pd.Series(vals, index=pd.Index(idx))
+        return pd.Series(vals, index=index)
     if c == "frame":
-        return pd.DataFrame({"a": vals, "b": vals + 1}, index=pd.Index(idx))
+        return pd.DataFrame({"a": vals, "b": vals + 1}, index=index)
     if c == "array1":
         return vals
     if c == "array2":
@@ -403,8 +422,8 @@ def _verdict(f, fitted_of=None):
         return {"verdict": "other", "exc": type(e).__name__ + ": " + str(e)[:120]}
 
 
-def _good_y(n=30, start=0):
-    return _mk_y({"cont": "series", "len": n, "sorted": True}, start)
+def _good_y(n=30, start=0, idx="int"):
+    return _mk_y({"cont": "series", "len": n, "sorted": True, "idx": idx}, start)
 
 
 def _setting(case):
@@ -570,7 +589,7 @@ def _matrix(case):
     from sktime.forecasting.trend import PolynomialTrendForecaster
     from sktime.transformations.series.detrend import Detrender
     n, start, cls, e = case["n"], case["start"], case["cls"], case["entry"]
-    good = _good_y(n, start)
+    good = _good_y(n, start, case.get("idx", "int"))
     y = good
     if cls == "y_unsorted":
         y = good.iloc[::-1]
@@ -585,6 +604,12 @@ def _matrix(case):
     X = None
     if cls == "X_diff_index":
         X = pd.DataFrame({"x": np.arange(n, dtype=float)}, index=pd.RangeIndex(start + 1, start + n + 1))
+    elif cls == "X_unsorted":
+        X = pd.DataFrame({"x": np.arange(n, dtype=float)}, index=good.index).iloc[::-1]
+    elif cls == "X_array":
+        X = np.arange(n, dtype=float).reshape(-1, 1)
+    elif cls == "X_shorter":
+        X = pd.DataFrame({"x": np.arange(n - 1, dtype=float)}, index=good.index[: n - 1])
     fh = {"fh_dup": [1, 2, 2], "fh_empty": [], "fh_frac": [1, 2.5], "fh_str": "a",
           "fh_float": 1.5}.get(cls, [1, 2])
     holder = {}
@@ -600,7 +625,9 @@ def _matrix(case):
         ynew = good.iloc[n - 4:] if y is good else y
         Xn = None
         if X is not None:
-            Xn = X.iloc[n - 4:]
+            Xn = X[n - 4:] if isinstance(X, np.ndarray) else (
+                X.iloc[:4] if cls == "X_unsorted" else (
+                    X.iloc[n - 4: n - 1] if cls == "X_shorter" else X.iloc[n - 4:]))
             fc = NaiveForecaster().fit(good.iloc[: n - 4], pd.DataFrame(
                 {"x": np.arange(n - 4, dtype=float)}, index=good.index[: n - 4]), fh=[1])
             holder["upd"] = fc
